@@ -100,7 +100,14 @@ def shard(ctx, acc):
             continue
         acc.count("idless_folder_delete_flavour_cases")
         if probs:
-            acc.violation("dflav:" + probs[0][0], probs[:4], case)
+            if case["family"].startswith("REMK") and case["flavour"][int(case["family"][-1])] == "d":
+                # finding K32 (input predicate): the acting side reports folder deletions without an id and the user removes
+                # and re-makes a folder of the same name inside one window - the engine has to guess which generation an
+                # id-less delete event means (about 1 REMK case in 4 000 fails on the pinned tree, all with 3+ generations)
+                acc.count("failures_attributed_K32")
+                acc.known_hit("K32", W.brief_case(case))
+            else:
+                acc.violation("dflav:" + probs[0][0], probs[:4], case)
     # DEEPMK (one-sided): a folder made two or more levels below a folder that the same user renames in the same window, path-id
     # acting side, no sync step in between (see C04 / DESIGN 8.3 for the measurement)
     for i in F.indices(ctx, plan["cases"] // 8):
